@@ -348,8 +348,8 @@ def run_programs(ctx, res, jinja2, runner, boost):
     distinct = set()
     samples = []
 
-    def one(templates, main, spec, feats, classes, ae, modes):
-        undef = rng.choice(UNDEFINED_CLASSES)
+    def one(templates, main, spec, feats, classes, ae, modes, undef=None):
+        undef = undef or rng.choice(UNDEFINED_CLASSES)
         env_kw = {} if undef == "Undefined" else {"undefined": getattr(jinja2, undef)}
         stats["undefined_classes"][undef] = stats["undefined_classes"].get(undef, 0) + 1
         for ci, cls in enumerate(classes):
@@ -426,6 +426,9 @@ def run_programs(ctx, res, jinja2, runner, boost):
             return L.CLASSES
         return ["Environment", L.CLASSES[1 + i % 3]] if i % 2 == 0 else [L.CLASSES[1 + i % 3]]
 
+    # corpus: minimised past findings, replayed first
+    one({"main": "a{{ missing }}b{{ 1 // zero }}"}, "main", {"zero": 0}, {"corpus"}, ["NativeEnvironment", "Environment"], False, [L.MODES[0]],
+        undef="StrictUndefined")
     for i in range(n_pg):
         pg = G.PG(rng, pools)
         templates, main, feats = pg.make(rng.randrange(1, 4))
